@@ -6,7 +6,6 @@ use crate::physical::PhysicalPlanner;
 use crate::planner::{Expr, LogicalPlan, ScalarValue};
 use arrow::array::{Array, ArrayRef, BooleanArray};
 use arrow::record_batch::RecordBatch;
-use futures::TryStreamExt;
 use std::collections::HashMap;
 use std::sync::Arc;
 
@@ -32,13 +31,21 @@ fn subquery_runtime() -> &'static tokio::runtime::Runtime {
 
 /// Execute an async physical plan, reusing a shared runtime instead of creating
 /// a new one per subquery evaluation.
+///
+/// Every partition the plan declares is drained, exactly as
+/// `ExecutionContext::sql` does for a root plan: a Filter/Project over a
+/// multi-partition scan declares several partitions, and driving only
+/// partition 0 silently drops the rows of the others.
 fn run_subquery_blocking(
     physical: Arc<dyn crate::physical::PhysicalOperator>,
 ) -> Result<Vec<RecordBatch>> {
+    use crate::physical::operators::spillable::collect_input_partitions_concurrently;
     let rt = subquery_runtime();
     std::thread::spawn(move || {
-        let stream = rt.block_on(physical.execute(0))?;
-        rt.block_on(async { stream.try_collect().await })
+        rt.block_on(async {
+            let (batches, _size) = collect_input_partitions_concurrently(&physical).await?;
+            Ok(batches)
+        })
     })
     .join()
     .unwrap_or_else(|_| {
@@ -274,20 +281,22 @@ impl SubqueryExecutor {
         // Run the async code reusing the existing runtime when possible
         let batches = run_subquery_blocking(physical)?;
 
-        if batches.is_empty() || batches[0].num_rows() == 0 {
+        // The single row may sit behind empty batches (a filter emits one per
+        // input batch/partition it rejects entirely), so count rows overall.
+        let total_rows: usize = batches.iter().map(|b| b.num_rows()).sum();
+        let Some(batch) = batches.iter().find(|b| b.num_rows() > 0) else {
             let result = ScalarValue::Null;
             self.inner
                 .cache
                 .lock()
                 .insert(key, SubqueryResult::Scalar(result.clone()));
             return Ok(result);
-        }
+        };
 
-        let batch = &batches[0];
-        if batch.num_rows() != 1 {
+        if total_rows != 1 {
             return Err(QueryError::Execution(format!(
                 "Scalar subquery returned {} rows, expected 1",
-                batch.num_rows()
+                total_rows
             )));
         }
 
